@@ -67,8 +67,12 @@ func init() {
 	})
 	regSafety("C11", mkC11, shC11)
 	replayers["C11"] = append(replayers["C11"], func(vals []int, keepLog bool) *sim.World {
+		restarted := len(vals) > 0 && vals[0] == 1
 		if len(vals) > 0 {
 			vals = vals[1:] // the share draw
+		}
+		if restarted {
+			return RunRestartedSolo(&ReplaySrc{Vals: vals}, mkC11(), keepLog)
 		}
 		return RunLargeCommittee(&ReplaySrc{Vals: vals}, mkC11(), keepLog)
 	})
@@ -234,14 +238,21 @@ func TestC11(t *testing.T) {
 	// no panic, whatever the size of the committee: 24..200 validators, the node the speaker of every height
 	rapid.Check(t, func(t *rapid.T) {
 		src := &RapidSrc{T: t}
-		if src.Intn("largeshare", 3) != 0 { // a third of the budget is plenty (a case costs milliseconds)
+		gen := RunLargeCommittee
+		switch src.Intn("largeshare", 3) { // a third of the budget is plenty for the large committees (a case costs milliseconds)
+		case 0:
+		case 1:
+			// ... and whatever a validator restarted with empty state is handed back of its own past (its own proposal,
+			// responses, change views and commits, directly or inside recovery messages, in any order)
+			gen = RunRestartedSolo
+		default:
 			return
 		}
-		w := RunLargeCommittee(src, mkC11(), false)
+		w := gen(src, mkC11(), false)
 		fatal := e.Report(w, src.Rec, func() string {
-			return RunLargeCommittee(&ReplaySrc{Vals: src.Rec[1:]}, mkC11(), true).Render()
+			return gen(&ReplaySrc{Vals: src.Rec[1:]}, mkC11(), true).Render()
 		})
-		e.Case(FPInts(src.Rec), w.Stats["large_response"] > 70, w.Stats, func() any { return sampleOf(w, src.Rec) })
+		e.Case(FPInts(src.Rec), w.Stats["large_response"] > 70 || w.Stats["restarted_primary_times_out_with_own_old_commit"] > 0, w.Stats, func() any { return sampleOf(w, src.Rec) })
 		if fatal != "" {
 			t.Fatalf("%s", fatal)
 		}
